@@ -121,14 +121,14 @@ CHECKS = {
                  "structural tokens and 1000-entry batch boundaries otherwise) and injected read errors. jsonsim: one evaluation = an add/get "
                  "history on the JSON store, save/load round trip, then a second SaveDatabase expanded into every file-system operation "
                  "boundary x crash modes (or one injected ENOSPC/EIO). jsonsched: 2-3 writer tasks (single and batch adds with unique or auto IDs) and "
-                 "0-2 reader tasks interleaved by the tape-driven scheduler at every lock operation of the JSON store; every added signature must be fetched back with its own content. migratecli: a history of 2-5 `sfw migrate` invocations (cli.RunMigrate, real temp directory) against ONE destination database with well-formed, truncated, non-JSON, resubmitted-unchanged or repaired-in-place source files; every invocation that reports success must have stored every signature of its source. storesim-concurrent (writers only): 2-3 writer tasks on the embedded store interleaved at every lock operation and Pebble call; afterwards every signature must be fetched back, by ID and through every index, with the content of the last committed write. Non-trivial = at least 2 entries (migrate) / crash enumeration or a fired fault (json); "
+                 "0-2 reader tasks interleaved by the tape-driven scheduler at every lock operation of the JSON store; every added signature must be fetched back with its own content. migratecli: a history of 2-5 `sfw migrate` invocations (cli.RunMigrate, real temp directory) against ONE destination database with well-formed, truncated, non-JSON, resubmitted-unchanged or repaired-in-place source files; every invocation that reports success must have stored every signature of its source. storesim-concurrent (writers and getters): 2-3 writer tasks and 1-2 tasks calling GetSignature on the embedded store, interleaved at every lock operation and Pebble call; every fetch must return the record of one committed state of its window; afterwards every signature must be fetched back, by ID and through every index, with the content of the last committed write. Non-trivial = at least 2 entries (migrate) / crash enumeration or a fired fault (json); "
                  "distinct = distinct input encodings / operation traces."),
         "jobs": [
             {"engine": "storesim-migrate", "bin": "pebbledb", "test": "TestVerifC18Migrate", "cfg": {}, "weight": 3},
             {"engine": "jsonsim", "bin": "jsondb", "test": "TestVerifC18JSON", "cfg": {}, "weight": 1},
             {"engine": "jsonsched", "bin": "jsondb", "test": "TestVerifC18JSONSched", "cfg": {}, "weight": 1},
             {"engine": "migratecli", "bin": "cli", "test": "TestVerifC18CLI", "cfg": {}, "weight": 1, "max_workers": 2},
-            {"engine": "storesim-concurrent", "bin": "pebbledb", "test": "TestVerifC11", "cfg": {"writers_only": "1"}, "weight": 1},
+            {"engine": "storesim-concurrent", "bin": "pebbledb", "test": "TestVerifC11", "cfg": {"writers_only": "1", "getters": "1"}, "weight": 1},
         ],
         "assumptions": ["the old JSON file is durable (its directory synced) before the save that is crashed",
                         "durability of the rename itself is not demanded (C18 speaks of atomic replacement)",
@@ -143,9 +143,13 @@ CHECKS = {
                  "including those of open and close) x crash modes {process, machine-strict, machine-torn x k seeds}; each image is reopened "
                  "and compared with the admissible reference models (acknowledged mutations present; the one in-flight mutation applied "
                  "fully or not at all; indexes consistent; interrupted rebuild loses no record and is repaired by a second rebuild; recovered "
-                 "store accepts further mutations; sampled nested crashes during recovery). Non-trivial = the history holds at least one mutation "
+                 "store accepts further mutations; sampled nested crashes during recovery). In a quarter of the histories a second caller submits the same mutation "
+                 "while the first caller's WAL sync is held in flight: it must wait for the first caller, or what it was acknowledged must already be durable at that instant. "
+                 "A second job runs 2-3 concurrent writer tasks (incl. an index rebuild over more than 1000 signatures) under the tape-driven scheduler and "
+                 "checks the machine-crash image taken once every writer has been acknowledged. Non-trivial = the history holds at least one mutation "
                  "(so some images have it in flight); distinct = distinct operation histories."),
-        "jobs": [{"engine": "storesim-crash", "bin": "pebbledb", "test": "TestVerifC07", "cfg": {}}],
+        "jobs": [{"engine": "storesim-crash", "bin": "pebbledb", "test": "TestVerifC07", "cfg": {}, "weight": 6},
+                 {"engine": "storesim-concurrent", "bin": "pebbledb", "test": "TestVerifC11", "cfg": {"writers_only": "1", "crash_at_end": "1"}, "weight": 1}],
         "assumptions": ["A1: the database directory exists and is durable before the workload starts",
                         "machine-strict = Pebble vfs.NewStrictMem semantics; machine-torn additionally keeps a prefix of each file's unsynced writes and of each directory's unsynced entry operations"],
         "real_vs_stub": STORE_STUB,
